@@ -2,6 +2,9 @@ package main
 
 import (
 	"fmt"
+	"os"
+	"os/exec"
+	"strings"
 
 	"github.com/antonmedv/expr"
 	"github.com/antonmedv/expr/ast"
@@ -25,6 +28,24 @@ func (y *c08Yield) pause() {
 }
 func (y *c08Yield) Enter(*ast.Node) { y.pause() }
 func (y *c08Yield) Exit(*ast.Node)  { y.pause() }
+
+// c08Current is the yield handle of the Compile thread the explorer is stepping right now (nil outside a step).
+// In the overlay build every method entry of the compile pipeline calls c08PointHook, which parks the running
+// thread there: the explorer then interleaves concurrent Compile calls at method granularity through every
+// phase (check, patch, optimize, emit), not only at the user visitor's callbacks.
+var (
+	c08Current         *c08Yield
+	c08FinePoints      bool // park at injected points (fine scenarios only)
+	c08PointsAvailable bool
+	c08PointsHit       int64
+)
+
+func c08PointHook(id string) {
+	if y := c08Current; y != nil && c08FinePoints {
+		c08PointsHit++
+		y.pause()
+	}
+}
 
 type c08CompileEnv struct {
 	S, Tag string
@@ -71,12 +92,14 @@ func (t *c08CompileThread) Step() {
 			t.finished <- key
 		}()
 	}
+	c08Current = t.y
 	t.y.grant <- struct{}{}
 	select {
 	case <-t.y.yielded:
 	case r := <-t.finished:
 		t.done, t.result = true, r
 	}
+	c08Current = nil
 }
 
 type c08CompileExec struct{ threads []*c08CompileThread }
@@ -110,6 +133,9 @@ func c08CompileJobs() []c08CompileJob {
 		{`[len(5..1), I, len(3..2)]`, func(y *c08Yield) []expr.Option {
 			return []expr.Option{sharedEnvOpt, expr.Patch(y)}
 		}},
+		{`I + len(S) + len(7..6)`, func(y *c08Yield) []expr.Option { // the same folded constant at another position
+			return []expr.Option{sharedEnvOpt, expr.Patch(y)}
+		}},
 		{`S + Tag + "x"`, func(y *c08Yield) []expr.Option {
 			return []expr.Option{sharedEnvOpt, opS, expr.Patch(y)} // the same option VALUE as in the job above
 		}},
@@ -134,6 +160,7 @@ func c08CompileJobs() []c08CompileJob {
 // c08CompileScenarios explores the interleavings of 2 and 3 concurrent Compile calls.
 func c08CompileScenarios(r *report.Run, order *int64) (schedules, steps int64, capped bool) {
 	jobs := c08CompileJobs()
+	var fineSchedules int64
 	// solo keys: each job compiled alone through the same yielding machinery, each with option values of its own
 	solo := make([]string, len(jobs))
 	for i := range jobs {
@@ -150,38 +177,94 @@ func c08CompileScenarios(r *report.Run, order *int64) (schedules, steps int64, c
 			combos = append(combos, []int{a, b})
 		}
 	}
-	combos = append(combos, []int{2, 5, 6}, []int{4, 4, 5}, []int{3, 5, 7}, []int{5, 7, 7}, []int{0, 0, 2}, []int{1, 1, 3})
-	for _, combo := range combos {
-		bound := 2
-		if len(combo) == 3 {
-			bound = 1
-		}
-		if r.Tier == "thorough" {
-			bound++
-		}
-		combo := combo
-		mk := func() sched.Execution {
-			x := &c08CompileExec{}
-			for _, j := range combo {
-				x.threads = append(x.threads, &c08CompileThread{src: jobs[j].src, opts: jobs[j].opts, y: &c08Yield{make(chan struct{}), make(chan struct{})}, finished: make(chan string, 1)})
+	combos = append(combos, []int{3, 6, 7}, []int{5, 5, 6}, []int{4, 6, 8}, []int{6, 8, 8}, []int{0, 0, 3}, []int{1, 2, 4})
+	type pass struct {
+		combos [][]int
+		fine   bool
+	}
+	passes := []pass{{combos, false}}
+	if c08PointsAvailable {
+		// fine-grained pass: threads also park at every method entry of the compile pipeline (overlay build)
+		var fine [][]int
+		for a := 0; a < len(jobs); a++ {
+			for b := a; b < len(jobs); b++ {
+				fine = append(fine, []int{a, b})
 			}
-			return x
 		}
-		ex := &sched.Explorer{New: mk, Bound: bound, Stop: r.OutOfTime}
-		ex.Check = func(xe sched.Execution, schedule []int) {
-			x := xe.(*c08CompileExec)
-			*order++
-			for ti, t := range x.threads {
-				if t.result != solo[combo[ti]] {
-					r.Report(report.Violation{Sub: "scheduler-compile", Kind: "program-differs-from-solo-compile", Witness: fmt.Sprintf("%q", jobs[combo[ti]].src), Order: *order,
-						Detail: map[string]interface{}{"schedule": fmt.Sprint(schedule), "concurrent_with": fmt.Sprint(combo), "solo": trunc(solo[combo[ti]]), "observed": trunc(t.result)}})
+		passes = append(passes, pass{fine, true})
+	}
+	for _, ps := range passes {
+		c08FinePoints = ps.fine
+		for _, combo := range ps.combos {
+			bound := 2
+			if len(combo) == 3 {
+				bound = 1
+			}
+			if r.Tier == "thorough" {
+				bound++
+			}
+			if ps.fine {
+				bound = 1 // about 10x more scheduling points per thread: every single preemption (thorough: two, on the pairs that share option values)
+				if r.Tier == "thorough" && (combo[0] <= 3 || combo[0] == combo[1]) {
+					bound = 2
 				}
 			}
+			combo := combo
+			mk := func() sched.Execution {
+				x := &c08CompileExec{}
+				for _, j := range combo {
+					x.threads = append(x.threads, &c08CompileThread{src: jobs[j].src, opts: jobs[j].opts, y: &c08Yield{make(chan struct{}), make(chan struct{})}, finished: make(chan string, 1)})
+				}
+				return x
+			}
+			ex := &sched.Explorer{New: mk, Bound: bound, Stop: r.OutOfTime}
+			ex.Check = func(xe sched.Execution, schedule []int) {
+				x := xe.(*c08CompileExec)
+				*order++
+				for ti, t := range x.threads {
+					if t.result != solo[combo[ti]] {
+						r.Report(report.Violation{Sub: "scheduler-compile", Kind: "program-differs-from-solo-compile", Witness: fmt.Sprintf("%q", jobs[combo[ti]].src), Order: *order,
+							Detail: map[string]interface{}{"schedule": fmt.Sprint(schedule), "concurrent_with": fmt.Sprint(combo), "solo": trunc(solo[combo[ti]]), "observed": trunc(t.result)}})
+					}
+				}
+			}
+			ex.Explore()
+			schedules += ex.Schedules
+			steps += ex.Steps
+			capped = capped || ex.Capped
+			if ps.fine {
+				fineSchedules += ex.Schedules
+			}
 		}
-		ex.Explore()
-		schedules += ex.Schedules
-		steps += ex.Steps
-		capped = capped || ex.Capped
 	}
+	c08FinePoints = false
+	r.Set("compile_schedules_at_method_granularity", fineSchedules)
+	r.Set("compile_scheduling_points_hit", c08PointsHit)
 	return
+}
+
+func init() {
+	checks["c08-globals-debug"] = func(r *report.Run) {
+		if globalsSnap == nil && os.Getenv("VERIF_IN_OVERLAY") == "" {
+			bin, _, cleanup, err := buildVerifBinary()
+			if err != nil {
+				fmt.Println(err)
+				return
+			}
+			cmd := exec.Command(bin, os.Args[1:]...)
+			cmd.Env = append(os.Environ(), "VERIF_IN_OVERLAY=1")
+			cmd.Stdout, cmd.Stderr = os.Stdout, os.Stderr
+			cmd.Run()
+			cleanup()
+			return
+		}
+		a := globalsSnap()
+		expr.Compile("[len(5..1), 1]")
+		b := globalsSnap()
+		fmt.Println("changed:", a != b, c08Diff(a, b))
+		i := strings.Index(b, "emptyRange")
+		if i >= 0 {
+			fmt.Println(b[i:min(len(b), i+300)])
+		}
+	}
 }
